@@ -26,6 +26,15 @@ MM = "metadata_manager.MetadataManager"
 
 
 def check(ctx: Ctx) -> None:
+    _check(ctx)
+    # a pointer naming a missing file must lead to recovery, not to "no table" (which re-initialises over the table)
+    from .c10 import r2 as c10_r2
+    ctx.shared(c10_r2, "C10.R2", "C18.R9", "an existing table is never taken for an uninitialised one")
+    from .c10 import r12 as c10_r12
+    c10_r12(ctx, "C18.R10")
+
+
+def _check(ctx: Ctx) -> None:
     r1(ctx, "C18.R1")
     r2(ctx)
     r3(ctx)
@@ -97,6 +106,10 @@ def r2(ctx: Ctx) -> None:
             hn = next(x for x in g.nodes if x.kind == "handler" and x.ast is h)
             ex = handler_exits(ctx, f, hn)
             ok = bool(ex["raise"]) and all(r.raised == "TableExistsError" for r in ex["raise"]) and not ex["fallthrough"] and not ex["return"]
+            exact = set(handler_classes(h)) == {"CASConflictError"}
+            ctx.ob("C18.R2", f, "only a create-if-absent conflict means 'table exists'", hn, exact,
+                   f"handler classes {handler_classes(h)}: a transport / permission error on the first pointer write is not a lost race - "
+                   "reporting it as TableExistsError makes the caller adopt a table that was never created")
         ctx.ob("C18.R2", f, "CASConflictError -> TableExistsError", c, ok and not esc, "the loser adopts the winner's table")
     for b in [b for b in g.nodes if b.kind == "branch" and "supports_cas" in b.text]:
         t = edge_target(g, b, "true")
